@@ -25,7 +25,7 @@ def build(tier):
               unwind=14, functions=F[4:5], bounds='all piece-count vectors legal play can produce (up to 9 queens / 10 of a kind per side)', site='material.hpp:MatId::addPiece')]
     for k in range(6):
         obs.append(Ob('O1-step@%d' % k, u, 'h_step', 'make/unmake step, mover = ' + kinds[k] + ': frame, local invariant, key/sum deltas, rules, invariant preservation, exact undo',
-                      unwind=65, param=k, timeout=1800, mem_gb=12, functions=F, bounds='arbitrary state (64 symbolic squares, 12 symbolic piece sets, symbolic keys/sums/counters); any from/to/promotion of the shape class'))
+                      unwind=65, param=k, timeout=1800, mem_gb=12, functions=F, backend='kissat', bounds='arbitrary state (64 symbolic squares, 12 symbolic piece sets, symbolic keys/sums/counters); any from/to/promotion of the shape class'))
     names = ['setPiece', 'clearPiece', 'movePieceNotPawn']
     for k in range(3):
         obs.append(Ob('O3-%s' % names[k], u, 'h_setpiece', names[k] + ' from an arbitrary state: frame, local invariant, key/sum deltas', unwind=65, param=k, timeout=900,
@@ -34,8 +34,8 @@ def build(tier):
         Ob('O4-edits', u, 'h_edits', 'setWhiteMove/setCastleMask/setEpSquare move the hash by exactly the right keys and reverting them restores the state (null-move style edits)',
            unwind=65, functions=F[3:4], bounds='arbitrary state; any target values'),
         Ob('O5-scratchhash', u, 'h_scratchhash', 'computeZobristHash = XOR of piece-square, side, castle, ep-file keys; pawn key and material signature likewise; so positions equal under the repetition rule have equal keys',
-           unwind=65, timeout=900, functions=['Position::computeZobristHash (position.cpp:512-529)'], bounds='arbitrary boards with <= 5 men of each kind (bounds the signature sum)'),
+           unwind=65, timeout=900, functions=['Position::computeZobristHash (position.cpp:512-529)'], bounds='boards with up to 6 men of any kind (codes 0..12) on any distinct squares, rest empty; squares are treated independently by the code'),
         Ob('O6-serialize', u, 'h_serialize', 'deSerialize(serialize(p)) restores board, flags, counters and recomputes every derived field to its from-scratch value',
-           unwind=65, timeout=1200, mem_gb=12, functions=['Position::serialize/deSerialize (position.cpp:420-499)'], bounds='arbitrary boards with <= 5 men of each kind; halfMoveClock <= 255, fullMoveCounter <= 65535'),
+           unwind=65, timeout=1200, mem_gb=12, functions=['Position::serialize/deSerialize (position.cpp:420-499)'], bounds='boards with up to 6 men of any kind on any distinct squares, rest empty; halfMoveClock <= 255, fullMoveCounter <= 65535'),
     ]
     return [u], obs
